@@ -78,7 +78,10 @@ let fsm_case (delay_open : bool) (hold : int) (ap : String.t) (steps : String.t)
             let strs = List.map (fun f -> Printf.sprintf "%s:%s" (fam_s f) (match get_addpath s'.s_sc f with Some d -> ni d | None -> "-")) all in
             let strs = List.sort_uniq Stdlib.compare strs in
             Printf.sprintf "%s/%s" (b s'.s_sc.sc_four) (String.concat "," strs) end in
-        let out = String.concat "+" (List.map (function POpen -> "open" | PKeepalive -> "keepalive"
+        let out = String.concat "+" (List.map (function POpen -> (let (four, aps) = sent_open_caps s' in
+                                                                       Printf.sprintf "open[4=%s;ap=%s]" (b four)
+                                                                         (String.concat "," (List.sort Stdlib.compare (List.map (fun (f, d) -> fam_s f ^ ":" ^ ni d) aps))))
+                                                         | PKeepalive -> "keepalive"
                                                          | PNotif (c, sub) -> Printf.sprintf "notif:%s.%s" (ni c) (ni sub)) s'.s_out) in
         let app = String.concat "+" (List.map (function AUpdate _ -> "update" | ANotification _ -> "notification"
                                                          | ANegotiated (_, asn, _, _) -> "negotiated:" ^ ni asn | AConnLost -> "lost") s'.s_app) in
